@@ -55,7 +55,7 @@ func (c11) Gen(r *rand.Rand, tier string, idx int) *core.Plan {
 	p.World["confused"] = int64(r.IntN(2))
 	n := 1 + r.IntN(3)
 	for i := 0; i < n; i++ {
-		meta := int64(core.Pick(r, 0, 1, 1, 1, 2, 3, 4))
+		meta := int64(core.Pick(r, 0, 1, 1, 1, 2, 3, 4, 5, 6, 7))
 		p.Ops = append(p.Ops, core.Op{Kind: "sign", I: []int64{int64(core.Pick(r, 0, 0, 1, 2, 3, 4)), meta, int64(r.IntN(2)), int64(r.IntN(2)), int64(r.IntN(100))}})
 		if r.IntN(6) == 0 && p.World["store"] >= 2 {
 			p.Ops = append(p.Ops, core.Op{Kind: "reopen"})
@@ -328,6 +328,12 @@ func (l c11) Exec(env *core.Env) *core.Result {
 				meta, reserved = map[string]string{"io.cncf.notary.custom": "x", "fine": "y"}, true
 			case 4:
 				meta = map[string]string{"a": "1", "b": "2"}
+			case 5: // the reserved prefix itself, and a longer key starting with it
+				meta, reserved = map[string]string{"io.cncf.notary": "x"}, true
+			case 6:
+				meta, reserved = map[string]string{"io.cncf.notaryx.foo": "x", "z": ""}, true
+			case 7: // near misses of the reserved prefix are ordinary keys
+				meta = map[string]string{"IO.cncf.notary.x": "1", "io.cncf.notar": "2", "xio.cncf.notary": "3", "empty": ""}
 			}
 			opts := notation.SignOptions{SignerSignOptions: notation.SignerSignOptions{SignatureMediaType: world.Formats[op.Int(2)%2], PluginConfig: map[string]string{"cfg": "x"}}, ArtifactReference: ref, UserMetadata: meta}
 			if op.Int(3) == 1 && prev != nil {
